@@ -170,6 +170,17 @@ CLAIMED = {
          "states and memory-sharing tests, and the observations must agree with the table; batch-vs-item clauses and random programs are run by the falsifier."),
    ref="5 C20",
    note="Analysis heuristics trusted but cross-checked in both directions; functions that cannot be exercised are listed in the evidence with the reason."),
+ "C07": dict(
+   technique="Coq proof (2-D centred inverse DFT, unit-draw second-moment algebra) over a hand model + vm_compute correspondence with injected draws",
+   text=("Machine-checked proofs, for every even N, that each pixel of the FFT screen is an explicit linear function of its Gaussian draws "
+         "(sum over the frequency grid of sqrt(PSD) df (a cos theta - b sin theta)), hence that the ensemble covariance over independent unit "
+         "draws equals the inverse discrete Fourier sum of the sampled modified von Karman spectrum with the zero frequency removed, that it is "
+         "stationary with position-independent variance, that every realisation has zero spatial mean, that the amplitude scales exactly as "
+         "r0^(-5/6), and that with sub-harmonics the ensemble structure function is D_hi + D_lo with D_lo >= 0. The model is run against "
+         "ft_phase_screen / ft_sh_phase_screen with draws injected through a Generator subclass (unit draws = columns of the linear map). A defect "
+         "found by this check (integer seeds correlated the two parts) was repaired (bbcb31d)."),
+   ref="5 C07",
+   note="Convergence to the analytic structure function under grid refinement and 'closer at large separations' only tested numerically; Reals axioms; probability via second moments."),
 }
 NOT_YET = {}
 ALL = ["C%02d" % i for i in range(1, 21)]
